@@ -6,6 +6,7 @@ mod fam;
 mod mon_adv;
 mod mon_alias;
 mod mon_ctor;
+mod mon_law;
 mod mon_pair;
 mod mon_pure;
 mod mon_serde;
@@ -48,6 +49,9 @@ fn main() {
         "ctor" => mon_ctor::run(&job),
         "c07" => mon_pair::run(&job),
         "c14" => mon_pure::run(&job),
+        "law" => mon_law::run(&job),
+        "pair32" => mon_law::pair32(&job),
+        "zigdump" => mon_law::zigdump(),
         "c15" => mon_serde::run(&job),
         "c08" => mon_alias::run(&job),
         "sweepdump" => mon_single::sweepdump(&job),
